@@ -8,6 +8,8 @@
 #include <yaclib/async/contract.hpp>
 #include <yaclib/async/join.hpp>
 #include <yaclib/async/make.hpp>
+#include <yaclib/lazy/make.hpp>
+#include <yaclib/lazy/task.hpp>
 #include <yaclib/async/wait.hpp>
 #include <yaclib/async/wait_for.hpp>
 #include <yaclib/async/wait_until.hpp>
@@ -33,16 +35,40 @@ using yaclib::FailPolicy;
 using namespace std::chrono_literals;
 
 const int kSizes[] = {1, 2, 3, 4, 8, 16, 64, 256};
-enum Kind { kWhenAll, kWhenAny, kJoin, kWait, kGet, kStrand, kCoAwait, kKindN };
+enum Kind { kWhenAll, kWhenAny, kJoin, kWait, kGet, kStrand, kCoAwait, kValueMoves, kKindN };
 const char* const kKindName[] = {"WhenAll", "WhenAny", "Join", "Wait/WaitFor/WaitUntil", "Future::Get", "Strand::Submit",
-                                 "co_await / Await"};
+                                 "co_await / Await", "rvalue values move"};
 
 struct TJob final : yaclib::Job {
   int calls = 0;
+  yaclib::IExecutor* to = nullptr;  // submit `next` from inside Call (the strand is running a batch at that moment)
+  TJob* next = nullptr;
   void Call() noexcept final {
     ++calls;
+    if (to != nullptr && next != nullptr) {
+      to->Submit(*next);
+    }
   }
   void Drop() noexcept final {
+  }
+};
+
+// a copyable value that owns a heap block: moved through the library it costs nothing, copied it costs a block
+struct HeapVal {
+  int* p = nullptr;
+  HeapVal() = default;
+  explicit HeapVal(int v) : p{new int{v}} {
+  }
+  HeapVal(const HeapVal& o) : p{o.p != nullptr ? new int{*o.p} : nullptr} {
+  }
+  HeapVal(HeapVal&& o) noexcept : p{std::exchange(o.p, nullptr)} {
+  }
+  HeapVal& operator=(HeapVal o) noexcept {
+    std::swap(p, o.p);
+    return *this;
+  }
+  ~HeapVal() {
+    delete p;
   }
 };
 
@@ -86,12 +112,12 @@ long CountCombinator(int kind, int form, int n, int fail_at, bool pending) {
   auto complete = [&] {
     for (int i = 0; i < n; ++i) {
       if (!fv.empty() || !pv.empty()) {
-        if (i == fail_at) {
+        if (i == fail_at || (fail_at == -2 && i % 2 == 1)) {
           std::move(pv[static_cast<std::size_t>(i)]).Set(yaclib::StopTag{});
         } else {
           std::move(pv[static_cast<std::size_t>(i)]).Set();
         }
-      } else if (i == fail_at) {
+      } else if (i == fail_at || (fail_at == -2 && i % 2 == 1)) {
         std::move(ps[static_cast<std::size_t>(i)]).Set(yaclib::StopTag{});
       } else {
         std::move(ps[static_cast<std::size_t>(i)]).Set(i);
@@ -243,7 +269,7 @@ class AllocBounds final : public vf::Family {
   const char* Rule() const final {
     return "case = API (WhenAll | WhenAny | Join in the iterator forms over value / void futures x FailPolicy x ready or "
            "pending inputs x optional failing input | Wait / WaitFor / WaitUntil in variadic and iterator forms over "
-           "ready or pending Future / FutureOn handles (value and void) | Future::Get | Strand submission of an existing job | co_await f / Await(f) / "
+           "ready or pending Future / FutureOn handles (value and void) | Future::Get | Strand submission of existing jobs (to the idle strand or from inside a running batch) | heap-owning rvalue values through MakeFuture / MakeTask / Set / ThenInline | co_await f / Await(f) / "
            "Await(f,g)) x n from {1,2,3,4,8,16,64,256}; oracle = operator new calls of a combinator are <= 8 and equal "
            "for n = 16, 64 and 256; waits, Get, strand submit and co_await allocate exactly 0; non-trivial = n >= 16 or "
            "a pending (really blocking / suspending) case; distinct = parameter tuple";
@@ -258,19 +284,71 @@ class AllocBounds final : public vf::Family {
   std::string Describe(const Case& c) const final {
     char b[200];
     std::snprintf(b, sizeof b, "api=%s policy=%d form=%d n=%d pending=%d fail_at=%d", kKindName[c.H(0) % kKindN], c.H(1) % 3,
-                  c.H(2) % 3, kSizes[c.H(3) % 8], c.H(4) % 3 == 0 ? 1 : 0, c.H(5) % 40 < 10 ? c.H(5) % 40 : -1);
+                  c.H(2) % 3, kSizes[c.H(3) % 8], c.H(4) % 3 == 0 ? 1 : 0, c.H(5) % 40 < 10 ? c.H(5) % 40 : c.H(5) % 40 < 20 ? -2 : -1);
     return b;
   }
   Verdict Run(const Case& c, Explorer&) final {
     Verdict v;
     const int kind = c.H(0) % kKindN, policy = c.H(1) % 3, form = c.H(2) % 3, n = kSizes[c.H(3) % 8];
     const bool pending = c.H(4) % 3 == 0;
-    int fail_at = c.H(5) % 40 < 10 ? c.H(5) % 40 : -1;
+    int fail_at = c.H(5) % 40 < 10 ? c.H(5) % 40 : c.H(5) % 40 < 20 ? -2 : -1;  // one input / every odd input / none fails
     if (fail_at >= n) {
       fail_at = n - 1;
     }
     char b[200];
-    if (kind <= kJoin) {
+    if (kind == kValueMoves) {
+      // a heap-owning value handed to the library as an rvalue travels by move: each construct costs exactly its own block
+      HeapVal v0{1}, v1{2}, v2{3}, v3{4};
+      const long n0 = vf::L().news;
+      long expect = 0;
+      const char* what = "";
+      switch (c.H(1) % 5) {
+        case 0: {
+          what = "MakeFuture(rvalue)";
+          auto f = yaclib::MakeFuture<HeapVal>(std::move(v0));
+          expect = 1;
+          (void)std::move(f).Get();
+          break;
+        }
+        case 1: {
+          what = "MakeTask(rvalue).Get()";
+          auto t = yaclib::MakeTask<HeapVal>(std::move(v1));
+          expect = 1;
+          (void)std::move(t).Get();
+          break;
+        }
+        case 2: {
+          what = "MakeContract + Set(rvalue) + Get";
+          auto [f, p] = yaclib::MakeContract<HeapVal>();
+          std::move(p).Set(std::move(v2));
+          expect = 1;
+          (void)std::move(f).Get();
+          break;
+        }
+        case 3: {
+          what = "MakeFuture(rvalue).ThenInline(pass through).Get()";
+          auto f = yaclib::MakeFuture<HeapVal>(std::move(v3)).ThenInline([](HeapVal x) {
+            return x;
+          });
+          expect = 2;
+          (void)std::move(f).Get();
+          break;
+        }
+        default: {
+          what = "MakeTask(rvalue).ThenInline(pass through).ToFuture().Get()";
+          auto f = yaclib::MakeTask<HeapVal>(std::move(v0)).ThenInline([](HeapVal x) {
+            return x;
+          }).ToFuture();
+          expect = 2;
+          (void)std::move(f).Get();
+        }
+      }
+      const long cnt = vf::L().news - n0;
+      if (cnt != expect) {
+        std::snprintf(b, sizeof b, "%s: %ld blocks for %ld constructs (a value given as an rvalue was copied)", what, cnt, expect);
+        v.Fail(b);
+      }
+    } else if (kind <= kJoin) {
       const long cnt = Combinator(kind, policy, form, n, fail_at, pending);
       if (cnt > 8) {
         std::snprintf(b, sizeof b, "%s with n=%d allocated %ld blocks (bound 8)", kKindName[kind], n, cnt);
@@ -332,11 +410,23 @@ class AllocBounds final : public vf::Family {
       auto manual = yaclib::MakeManual();
       auto strand = yaclib::MakeStrand(manual);
       std::vector<TJob> jobs(static_cast<std::size_t>(n > 64 ? 64 : n));
-      const long n0 = vf::L().news;
-      for (auto& j : jobs) {
-        strand->Submit(j);
+      if (form != 0) {
+        // each job submits the next existing job while the strand is running (form 1: all chained, form 2: every other)
+        for (std::size_t i = 0; i + 1 < jobs.size(); ++i) {
+          if (form == 1 || i % 2 == 0) {
+            jobs[i].to = strand.Get();
+            jobs[i].next = &jobs[i + 1];
+          }
+        }
       }
-      (void)static_cast<yaclib::ManualExecutor&>(*manual).Drain();
+      const long n0 = vf::L().news;
+      for (std::size_t i = 0; i < jobs.size(); ++i) {
+        if (i == 0 || jobs[i - 1].next == nullptr) {
+          strand->Submit(jobs[i]);
+        }
+      }
+      while (static_cast<yaclib::ManualExecutor&>(*manual).Drain() != 0) {
+      }
       const long cnt = vf::L().news - n0;
       for (auto& j : jobs) {
         if (j.calls != 1) {
